@@ -58,7 +58,8 @@ Inductive frame :=
 | FAfterValue (o : oid)                      (* rest of drop_unreachable* *)
 | FInners (es : list inner)                  (* drop(inners) *)
 | FTableDrop (o : oid)                       (* second field of an inners tuple *)
-| FFinishGroup (keys : list oid).            (* phase three of drop_cycle *)
+| FFinishGroup (keys : list oid)             (* phase three of drop_cycle *)
+| FRes (r : result).                         (* a script action returns: its result is logged *)
 
 (** ** Resolving handle references *)
 Definition reg_get (s : state) (r : nat) : reg := nth r (regs s) REmpty.
@@ -533,6 +534,7 @@ Fixpoint unwind_stack (s : state) (k : list frame) : state * list frame :=
       let '(s1, k1) := unwind_stack s k' in
       match f with
       | FRunDtor p _ => (s1, FDropSlots (slots p) :: k1)
+      | FRes _ => (s1, k1)                    (* the call never returns *)
       | FAfterValue o => (add_ev s1 (EvLeak o), k1)
       | FFinishGroup keys => (fold_left (fun s x => add_ev s (EvLeak x)) keys s1, k1)
       | _ => (s1, f :: k1)
@@ -558,8 +560,8 @@ Definition step (pri : list oid) (c : config) : outcome :=
           match exec_act s (Some p) a with
           | AO s1 self r push =>
               let p1 := match self with Some q => q | None => p end in
-              Running {| st := add_ev s1 (EvRes r);
-                         stack := push ++ FRunDtor p1 pc :: k; unw := unw c |}
+              Running {| st := s1;
+                         stack := push ++ FRes r :: FRunDtor p1 pc :: k; unw := unw c |}
           | AHalt e => Halted s e
           | APanicOut =>
               if unw c then Halted s HAbort
@@ -605,6 +607,7 @@ Definition step (pri : list oid) (c : config) : outcome :=
           | Ok h1 => Running {| st := set_heap s h1; stack := k; unw := unw c |}
           | Bad e => Halted s e
           end
+      | FRes r => Running {| st := add_ev s (EvRes r); stack := k; unw := unw c |}
       end
   end.
 
